@@ -2,7 +2,7 @@
 C20 — Generated optical photons are physically valid.
 Property theorems only (ℝ reading of the `Num`-generic model in Model/Optical.lean, which is run
 bit-exactly at `Float` against the real generators by harness/optical.cc with a scripted random
-stream).  Helper lemmas: Lemmas/OpticalVec.lean, OpticalGen.lean, OpticalCer.lean.
+stream).  Helper lemmas: Lemmas/OpticalVec.lean, OpticalGen.lean, OpticalCer.lean, OpticalGrid.lean.
 
 Conventions: `vdot` is the plain dot product, `isUnit v` means `vdot v v = 1`, `inUnit s` says
 every script value is a canonical uniform in [0,1], `K.Pos` that the physical constants are
@@ -10,6 +10,7 @@ positive.  A generator run is a hypothesis `… s = some (photon, rest)` (`none`
 out before the rejection loops accepted).  `expm1`, `sincospi` are arbitrary functions.
 -/
 import CelerVerif.Lemmas.OpticalCer
+import CelerVerif.Lemmas.OpticalGrid
 
 namespace CelerVerif.Optical
 open CelerVerif
@@ -89,6 +90,14 @@ Hypotheses common to the statements below: the step has moved (`stepDelta d ≠ 
 incident direction `make_unit_vector(post − pre)` is defined), pre/post speeds are positive,
 and the refractive-index calculator returns positive values (`hn`; for a table with positive
 entries on an increasing energy grid this is linear interpolation between positive knots). -/
+
+/-- the hypothesis `hn` used below holds for every table that optical `MaterialParams` admits
+    with positive entries: on a strictly increasing energy grid (≥ 2 points) the calculator
+    (`NonuniformGrid::find` binary search + linear interpolation, constant extrapolation)
+    returns a positive value whenever all tabulated values are positive -/
+theorem refractive_index_positive (g : Grid ℝ) (hs : g.Sorted) (h2 : 2 ≤ g.size)
+    (hy : ∀ i, i < g.size → 0 < g.y i) (e : ℝ) : 0 < g.eval e :=
+  Grid.eval_pos g hs h2 hy e
 
 /-- ★ direction and polarisation of every generated Cerenkov photon are unit vectors and
     perpendicular to each other -/
@@ -327,6 +336,12 @@ example : inUnit [0, 1 / 2, 1] := by
 example : (⟨1, 1, 1, 1, 1, 1⟩ : Consts ℝ).Pos := ⟨by norm_num, by norm_num, by norm_num⟩
 example : (⟨#[1, 2], #[(3 : ℝ) / 2, 2]⟩ : Grid ℝ).EndsOrdered := by
   refine ⟨rfl, ?_, ?_⟩ <;> (simp [Grid.front, Grid.back, Grid.x, Grid.y, Grid.size]; try norm_num)
+example : (⟨#[1, 2], #[(3 : ℝ) / 2, 2]⟩ : Grid ℝ).Sorted := by
+  intro i j hij hj
+  have hj' : j < 2 := hj
+  have : i = 0 ∧ j = 1 := by omega
+  obtain ⟨rfl, rfl⟩ := this
+  simp [Grid.x]
 /-- the loop hypothesis `… = some …` is satisfiable: an accepted value yields a result -/
 example (g : CerGen ℝ) (u : ℝ) (hu : ¬ 1 < (g.propose u).2) :
     g.energyInner [u] = some (g.propose u, []) :=
